@@ -99,6 +99,11 @@ func match(t *rt.Thread, c *rt.GoCont) (rt.Cont, error) {
 	if ptnErr != nil {
 		return nil, ptnErr
 	}
+	if si > len(s) {
+		// init is past the end of the subject: no match (as in find)
+		t.Push1(next, rt.NilValue)
+		return next, nil
+	}
 	captures, usedCPU := pat.MatchFromStart(string(s), si, t.UnusedCPU())
 	t.RequireCPU(usedCPU)
 	pushCaptures(t.Runtime, captures, s, next)
